@@ -6,7 +6,7 @@
     series-parallel term [T]; [lin T sigma] says [sigma] is an order in which the
     tasks can actually execute (tasks atomic: see DESIGN.md on what is partial). *)
 From Coq Require Import Permutation.
-From Brood Require Import Base Kinds Tables Sched SchedSpec SchedFacts.
+From Brood Require Import Base Kinds Tables Sched SchedSpec SchedFacts TouchFacts.
 
 (** Every schedule that type-checks (the stager accepts it) runs to completion
     without ever hitting an unchecked merge that fails, on every world, and runs
@@ -76,6 +76,33 @@ Check (C07_sequential : forall n nres tasks archs stages T, NoDup archs ->
     (forall i j, compat n nres tasks archs i j -> commute sem i j) ->
     forall sigma, lin T sigma -> forall s, exec sem sigma s = exec sem (seq 0 (length tasks)) s).
 Print Assumptions C07_sequential.
+
+(** The same with the hypothesis on the tasks' semantics stated over what they DECLARE (views, filter, entry
+    views, resource views — [may_access], no claim bookkeeping): it is enough that two tasks commute whenever
+    neither may write a component of a present archetype, or a resource, that the other may read or write. *)
+Theorem C07_sequential_declared : forall n nres tasks archs stages T, NoDup archs ->
+  stages_of n nres tasks = Some stages ->
+  run_schedule n nres tasks archs = Some (stages, T) ->
+  forall (store : Type) (sem : nat -> store -> store),
+    (forall i j ti tj ci cj, task_at tasks i = Some ti -> task_at tasks j = Some tj ->
+       task_claims n ti = Some ci -> task_claims n tj = Some cj ->
+       (forall s c, In s archs -> c < n -> claim_conflict (may_access ti s c) (may_access tj s c) = false) ->
+       (forall r, claim_conflict (res_access nres ti r) (res_access nres tj r) = false) ->
+       commute sem i j) ->
+    (forall i ti, task_at tasks i = Some ti -> task_claims n ti <> None) ->
+    forall sigma, lin T sigma -> forall s, exec sem sigma s = exec sem (seq 0 (length tasks)) s.
+Proof.
+  intros n nres tasks archs stages T ND HS HR store sem Hcomm Hwf sigma HL s.
+  apply (C07_sequential n nres tasks archs stages T ND HS HR store sem); [|exact HL].
+  intros i j (ti & tj & Hi & Hj & D).
+  destruct (task_claims n ti) as [ci|] eqn:Ci; [|exfalso; exact (Hwf i ti Hi Ci)].
+  destruct (task_claims n tj) as [cj|] eqn:Cj; [|exfalso; exact (Hwf j tj Hj Cj)].
+  pose proof (dyn_compat_no_shared_write D) as NS.
+  apply (Hcomm i j ti tj ci cj Hi Hj Ci Cj).
+  - intros sh c Hs Hc. exact (no_shared_write_declared n nres archs ti tj ci cj Ci Cj NS sh c Hs Hc).
+  - exact (proj2 NS).
+Qed.
+Print Assumptions C07_sequential_declared.
 
 (** Non-vacuity and the F4 regression (fixed by e2af2ab): T0:&mut A, T1:&mut B,
     T2:&mut B on a world with the archetype {A,B}.  T2 conflicts with T1, so it
